@@ -63,8 +63,10 @@ func (s step) String() string {
 // setting: a small one makes the recovery replay flush block by block).
 func genReopen(t *rapid.T, flush bool) step {
 	st := step{kind: "reopen", flag: flush}
-	if rapid.IntRange(0, 2).Draw(t, "otherCache") == 0 {
-		st.cache = 1 + rapid.SampledFrom([]uint64{0, 1, 1 << 10, 64 << 10, 100 << 20}).Draw(t, "cacheAfterReopen")
+	if rapid.IntRange(0, 2).Draw(t, "otherCache") > 0 {
+		// sizes of a few entries make a recovery replay flush somewhere in the middle and end
+		// with unflushed entries
+		st.cache = 1 + rapid.SampledFrom([]uint64{0, 1, 200, 400, 700, 1 << 10, 1500, 2 << 10, 3 << 10, 4 << 10, 8 << 10, 64 << 10, 100 << 20}).Draw(t, "cacheAfterReopen")
 	}
 	return st
 }
@@ -82,7 +84,7 @@ func genSteps(t *rapid.T, tr *ce.Tree) []step {
 			steps = append(steps, step{kind: "flush", mode: rapid.SampledFrom([]blockchain.FlushMode{blockchain.FlushRequired, blockchain.FlushRequired, blockchain.FlushPeriodic, blockchain.FlushIfNeeded}).Draw(t, "mode")})
 		case 2:
 			steps = append(steps, genReopen(t, rapid.Bool().Draw(t, "flushOnClose")))
-			if !steps[len(steps)-1].flag && rapid.IntRange(0, 2).Draw(t, "crashAgain") == 0 {
+			if !steps[len(steps)-1].flag && rapid.IntRange(0, 2).Draw(t, "crashAgain") > 0 {
 				// the process dies again right after the recovery
 				steps = append(steps, genReopen(t, false))
 			}
@@ -104,7 +106,7 @@ func genSteps(t *rapid.T, tr *ce.Tree) []step {
 			steps = append(steps, step{kind: "invalidate", node: x}, step{kind: "reconsider", node: x})
 			if rapid.Bool().Draw(t, "comboReopen") {
 				steps = append(steps, genReopen(t, false))
-				if rapid.IntRange(0, 2).Draw(t, "comboCrashAgain") == 0 {
+				if rapid.IntRange(0, 2).Draw(t, "comboCrashAgain") > 0 {
 					steps = append(steps, genReopen(t, false))
 				}
 			}
